@@ -198,13 +198,20 @@ def hull_dist(P, b):
     c = np.zeros(k + 1)
     c[-1] = 1.0
     b = np.asarray(b, dtype=float)
+    # the LP's feasibility tolerance (1e-7) is absolute: solve in coordinates relative to the cloud (convex weights sum to one, so
+    # the distance is invariant to the shift and scales with the cloud), e.g. a cloud of width 0.02 around (1, 1, 1)
+    lo = P.min(axis=0)
+    span = float(np.max(P.max(axis=0) - lo))
+    if not (np.isfinite(span) and span > 0):
+        span = 1.0
+    P, b = (P - lo) / span, (b - lo) / span
     A_ub = np.vstack([np.hstack([P.T, -np.ones((d, 1))]), np.hstack([-P.T, -np.ones((d, 1))])])
     b_ub = np.concatenate([b, -b])
     A_eq = np.hstack([np.ones((1, k)), np.zeros((1, 1))])
     res = _linprog(c, A_ub=A_ub, b_ub=b_ub, A_eq=A_eq, b_eq=[1.0], bounds=[(0, None)] * (k + 1))
     if res.status != 0:
         raise RuntimeError(f"hull_dist failed: {res.message}")
-    return float(res.x[-1]), np.asarray(res.x[:-1])
+    return float(res.x[-1]) * span, np.asarray(res.x[:-1])
 
 
 def hull_weight_margin(P, b):
